@@ -55,10 +55,30 @@ def refusal_satisfiable(cond, val, env):
     """Is `cond == val` satisfiable given env? Returns True/False/None(unknown). cond is a range conjunction."""
     conj = []
 
+    NEG = {"sle": "sgt", "sgt": "sle", "slt": "sge", "sge": "slt"}
+
+    def neg(c):
+        if c.op in NEG:
+            return E(NEG[c.op], c.args, c.w)
+        if c.op == "not":
+            return c.args[0]
+        return E("not", (c,), 1)
+
+    def is0(x):
+        return isinstance(x, E) and x.is_const() and x.val == 0
+
     def flat(c):
         if c.op == "and" and c.w == 1:
             flat(c.args[0])
             flat(c.args[1])
+        elif c.op == "gamma" and is0(c.args[1]):          # if-converted `!a && b` (matches!(x, lo..=hi) is one of these)
+            flat(neg(c.args[0]))
+            flat(c.args[2])
+        elif c.op == "gamma" and is0(c.args[2]):          # `a && b`
+            flat(c.args[0])
+            flat(c.args[1])
+        elif c.op == "not" and c.args[0].op in NEG:
+            conj.append(neg(c.args[0]))
         else:
             conj.append(c)
     flat(cond)
